@@ -135,6 +135,10 @@ def run(chk):
                                                          scene=sdh, aircraft=acs_h, first_state=[a[2] for a in acs], differences=bad_h[:8]))
                 SC = (1.0, 0.5, 0.25, 0.125, 0.0625)
                 errs = []
+                if mode == "fixed-geometry-cambered":
+                    # a swept wing with cambered sections, whatever was drawn: the sweep correction of the freestream lift enters the linear
+                    # system through the zero-lift angle
+                    acs = [(acs[0][0], gen.simple_wing_aircraft(N=4, reid=bool(it % 8 < 4), sweep=25.0), acs[0][2], {})] + list(acs[1:])
 
                 def scaled(v, f):
                     if isinstance(v, list):
@@ -152,6 +156,8 @@ def run(chk):
                                 w["airfoil"] = w["airfoil"][0][1]
                             if mode.startswith("fixed-geometry"):
                                 w.pop("twist", None)
+                                if mode == "fixed-geometry-cambered" and "semispan" in w and not isinstance(w.get("sweep"), list):
+                                    w["sweep"] = 20.0          # the sweep correction of the section lift enters through the zero-lift angle
                             else:
                                 for key in ("twist", "sweep", "dihedral"):
                                     if key in w:
